@@ -163,3 +163,7 @@ package internal
 //@   invariant src: TlsPoolSrc(p)
 //@   invariant distinct: TlsPoolDistinct(p)
 //@   private mapof(p.configs), ghost $held[addr(p.mu)], above(watermark())
+
+// lock discipline (C16)
+//@ guarded field tlsConfigPool.configs by addr(this.mu)
+//@ guarded field FileWatcher.watchers by addr(this.mu)
